@@ -70,8 +70,8 @@ func (s *scenario) scenarioKey() string {
 	ts := append([]string(nil), s.Tampers...)
 	sort.Strings(ts)
 	k := fmt.Sprintf("t=%s/body=%s/dest=%s/cfg=%s/kv=%s", strings.Join(ts, "+"), s.Body, s.Down, s.Cfg, s.KV)
-	if s.OS == "invalid" {
-		k += "/origin=invalid"
+	if strings.HasPrefix(s.OS, "inv") {
+		k += "/origin=" + s.OS
 	}
 	if s.DS == "invalid" {
 		k += "/destname=invalid"
@@ -115,7 +115,7 @@ func replay(seed int64, raw json.RawMessage) hx.Result {
 	}
 	pub, priv := keyFrom("origin")
 	pubOther, privOther := keyFrom("other")
-	sendable := s.Body != "nonutf8" && s.OS != "invalid" && s.DS != "invalid"
+	sendable := s.Body != "nonutf8" && !strings.HasPrefix(s.OS, "inv") && s.DS != "invalid"
 
 	// ---- Compose, Sign, Emit: the real sender
 	method := s.M
